@@ -44,6 +44,11 @@ func c07Leaf(kind string, t *ora.Tok, inPre bool) string {
 		return "<table><tr><th>" + t.W(1) + "</th><th>" + t.W(1) + "</th></tr><tr><td>" + t.W(2) + "</td><td>" + t.W(1) + "</td></tr></table>"
 	case "T22c":
 		return "<table><tr><th>" + t.W(1) + "</th><th>" + t.W(1) + "</th><th>" + t.W(1) + "</th></tr><tr><td>" + t.W(1) + "</td><td><!-- empty --></td><td><span hidden>" + t.W(1) + "</span></td></tr><tr><td><!-- only --></td></tr><tr><td>" + t.W(1) + "</td><td></td><td>" + t.W(1) + "</td></tr><tr aria-hidden=\"false\"><td>" + t.W(1) + "</td><td aria-hidden=\"false\">" + t.W(1) + "</td><td>" + t.W(1) + "</td></tr></table>"
+	case "T33h":
+		// rows and cells that share one inline style; the first of each is hidden by an attribute
+		return "<table><tr><th>" + t.W(1) + "</th><th>" + t.W(1) + "</th><th>" + t.W(1) + "</th></tr><tr style=\"height:24px\" hidden><td>" + t.W(1) + "</td><td>" + t.W(1) + "</td><td>" + t.W(1) + "</td></tr><tr style=\"height:24px\"><td style=\"text-align:right\" aria-hidden=\"true\">" + t.W(1) + "</td><td style=\"text-align:right\">" + t.W(1) + "</td><td>" + t.W(1) + "</td></tr><tr style=\"height:24px\"><td>" + t.W(1) + "</td><td style=\"text-align:right\">" + t.W(1) + "</td><td>" + t.W(1) + "</td></tr></table>"
+	case "FIGc":
+		return "<figure><img src=\"http://example.com/img/" + t.U() + ".jpg\" width=\"400\" height=\"300\"><figcaption>" + t.W(4) + "</figcaption></figure>"
 	case "JSb":
 		return "<a href=\"javascript:window.print()\"> </a>"
 	case "TW":
@@ -162,12 +167,14 @@ var allPlacements = [][2]int{{0, 0}, {0, 1}, {1, 0}, {1, 1}, {2, 0}, {2, 1}}
 func c07Passes(tier string) []c07Pass {
 	q := c07Cfg{leaves: []string{"Pc", "Ps", "Pb", "Tl", "T22c"}, conts: []string{"blockquote"}, lists: []string{"ul"}}
 	q2 := c07Cfg{leaves: []string{"Pc", "Ps", "IMG", "TW", "JSb"}, conts: []string{"div"}, lists: []string{"ol"}}
+	q3 := c07Cfg{leaves: []string{"Pc", "Ps", "T33h", "FIGc"}, conts: []string{"blockquote"}, lists: []string{"ul", "ol"}}
 	if tier != "thorough" {
 		return []c07Pass{
 			{q, 1, 1, 3, allPlacements},
 			{q, 3, 1, 2, [][2]int{{0, 0}, {1, 1}, {2, 0}}},
 			{q, 2, 3, 3, [][2]int{{1, 1}}},
 			{q2, 2, 1, 2, [][2]int{{0, 0}, {1, 1}}},
+			{q3, 2, 1, 2, [][2]int{{0, 0}, {0, 1}, {1, 1}, {1, 0}}},
 		}
 	}
 	t := c07Cfg{leaves: []string{"Pc", "Ps", "Tl", "IMG", "T22"}, conts: []string{"blockquote", "div"}, lists: []string{"ul", "ol"}}
@@ -177,6 +184,7 @@ func c07Passes(tier string) []c07Pass {
 		{t, 2, 3, 3, [][2]int{{0, 0}, {1, 1}}},
 		{t, 1, 3, 4, [][2]int{{0, 0}, {1, 1}}},
 		{t2, 2, 1, 3, [][2]int{{0, 0}, {1, 1}, {2, 0}}},
+		{q3, 3, 1, 3, [][2]int{{0, 0}, {0, 1}, {1, 1}, {1, 0}}},
 	}
 }
 
@@ -362,9 +370,12 @@ func tableShape(t *html.Node) string {
 		if ora.Ancestor(tr, "table") != t {
 			continue
 		}
+		if ora.HiddenKind(tr) != "" {
+			continue // hidden rows and cells are legitimately dropped
+		}
 		n := 0
 		for c := tr.FirstChild; c != nil; c = c.NextSibling {
-			if c.Type == html.ElementNode && (c.Data == "td" || c.Data == "th") {
+			if c.Type == html.ElementNode && (c.Data == "td" || c.Data == "th") && ora.HiddenKind(c) == "" {
 				n++
 			}
 		}
@@ -377,7 +388,7 @@ func init() {
 	eng.Register(&eng.Prop{
 		ID:        "C07",
 		DesignRef: "§5 C07",
-		Rule: "all block forests (sequences of trees) over list(+li items)/blockquote|div/pre containers, enumerated completely per pass; quick passes: {ul,blockquote,pre}x{Pc,Ps,link-only paragraph,bare text, data table with comment-only/hidden-only/empty cells and a one-cell row}: depth 1 with <= 3 leaves x 6 placements, depth 3 with <= 2 leaves x 3 placements, depth 2 with 3 leaves x 1 placement; {ol,div,pre}x{Pc,Ps,IMG,embedded tweet,blank javascript: anchor} depth 2, <= 2 leaves; " +
+		Rule: "all block forests (sequences of trees) over list(+li items)/blockquote|div/pre containers, enumerated completely per pass; quick passes: {ul,blockquote,pre}x{Pc,Ps,link-only paragraph,bare text, data table with comment-only/hidden-only/empty cells and a one-cell row}: depth 1 with <= 3 leaves x 6 placements, depth 3 with <= 2 leaves x 3 placements, depth 2 with 3 leaves x 1 placement; {ol,div,pre}x{Pc,Ps,IMG,embedded tweet,blank javascript: anchor} depth 2, <= 2 leaves; {ul,ol,blockquote,pre}x{Pc,Ps, a data table whose rows and cells share inline styles with a hidden first row/cell, a captioned figure} depth 2, <= 2 leaves x 4 placements; " +
 			"thorough passes: {ul,ol,blockquote,div,pre}x5 leaf kinds: depth 3 <= 2 leaves x 6 placements, depth 2 with 3 leaves, depth 1 with <= 4 leaves; {ul,blockquote,pre}x8 leaf kinds depth 2 <= 3 leaves. A placement = (0..2 content paragraphs before, 0..1 after). " +
 			"Oracle: every retained word has the same ul/ol/li/blockquote/pre ancestor chain in source and output; adjacent retained words share the same number of nestable ancestors (items stay in their list); a retained data table keeps all cell words and its row/cell shape. " +
 			"Non-trivial = a chain of depth >= 2 exists among retained words and the document is only partially retained.",
